@@ -149,7 +149,7 @@ func runC05(p *Prog, r *Report) {
 	okNW := false
 	eachInstr(sched, func(in ssa.Instruction) {
 		if c := callCommon(in); c != nil && isCallToNamed(c, semaPkg, "", "NewWeighted") {
-			okNW = loadedField(canon(c.Args[0])) == maxServers
+			okNW = loadedField(stripAllConv(c.Args[0])) == maxServers
 		}
 	})
 	r.Sites++
